@@ -22,6 +22,8 @@ Outputs: `imm p h t` (pull request sent at once), `dec p h t` (deferred pull req
 * `known_announcement_ignored`
 * `fallback_progress`, `head_examined` — one slot of the loop on a due head: dropped (stored / no registered pull),
   re-timed to the newer registered pull, or requested
+* `pull_type_is_holders_type`, `lanes_isolated`, `lane_runs_model` — several entry types on one manager: each pull
+  carries the type of the item's holder, other types' state is untouched, a lane behaves as the single-holder model
 * `no_loss` (current code) / `no_loss_as_found_counterexample` + `no_loss_partial` (code before fc3fdbe1)
 * `request_once` (current code) / `request_once_as_found_counterexample`
 -/
@@ -591,6 +593,56 @@ theorem request_once_as_found_counterexample : ¬ RequestOnceStatement asFoundCf
   have := h (asFoundTrace ++ [.loop, .loop, .tick 1100, .loop, .loop, .loop]) 3 2
   revert this
   decide
+
+/-! ## several entry types on one manager -/
+
+theorem laneStep_type (typ : Nat) (e : Ev) (n : Node) : ∀ x ∈ (laneStep typ e n).2, x.1 = typ := by
+  induction n with
+  | nil => simp [laneStep]
+  | cons l rest ih =>
+    simp only [laneStep]
+    split
+    · rename_i h; intro x hx; simp at hx; obtain ⟨_, _, rfl⟩ := hx; exact h
+    · exact ih
+
+/-- every pull request put on the wire (sent at once, issued by a tracker, or relayed by the manager) carries the
+entry type of the holder the event was addressed to, i.e. of the item's own holder -/
+theorem pull_type_is_holders_type (n : Node) (typ : Nat) (e : Ev) :
+    ∀ x ∈ (nodeStep n typ e).2, x.1 = typ := by
+  cases e <;> first | exact laneStep_type typ _ n | simp [nodeStep]
+
+theorem laneStep_others (typ : Nat) (e : Ev) (n : Node) :
+    (laneStep typ e n).1.length = n.length ∧
+    ∀ i (h : i < n.length), (n[i]).typ ≠ typ → ((laneStep typ e n).1[i]?) = some n[i] := by
+  induction n with
+  | nil => simp [laneStep]
+  | cons l rest ih =>
+    simp only [laneStep]
+    split
+    · rename_i h
+      refine ⟨by simp, ?_⟩
+      intro i hi hne
+      cases i with
+      | zero => exact absurd h hne
+      | succ j => simp
+    · refine ⟨by simp [ih.1], ?_⟩
+      intro i hi hne
+      cases i with
+      | zero => simp
+      | succ j => simpa using ih.2 j (by simpa using hi) hne
+
+/-- an event other than `tick` leaves the holders, trackers and counters of every other entry type untouched -/
+theorem lanes_isolated (n : Node) (typ : Nat) (e : Ev) (hne : ∀ t, e ≠ .tick t) (i : Nat) (h : i < n.length)
+    (hty : (n[i]).typ ≠ typ) : ((nodeStep n typ e).1[i]?) = some n[i] := by
+  cases e <;> first | exact (laneStep_others typ _ n).2 i h hty | exact absurd rfl (hne _)
+
+/-- inside its lane an event is exactly a step of the single-holder model (so all theorems above apply per type) -/
+theorem lane_runs_model (l : Lane) (rest : Node) (e : Ev) (hne : ∀ t, e ≠ .tick t) :
+    nodeStep (l :: rest) l.typ e =
+      ({ l with st := (step l.cfg l.st e).1 } :: rest, (step l.cfg l.st e).2.map (fun o => (l.typ, o))) := by
+  cases e with
+  | tick t => exact absurd rfl (hne t)
+  | _ => simp [nodeStep, laneStep]
 
 /-! ## non-vacuity -/
 
